@@ -26,6 +26,8 @@ func runC14(c *Ctx) {
 	r.Rule("R2-refresh-error", "a failed refresh keeps the session only by validateSession's verdict (C12.R4)", 4)
 	r.Rule("R3-provider-results", "no Provider method result is dropped: errors propagated or examined, verdicts used", 8)
 	r.Rule("R6-tested-then-dropped", "provider code never finds a module callee's error non-nil and then returns a nil error (shadowed or overwritten error variables, break-and-forget)", 50)
+	r.Rule("R8-bearer-email-verified", "bearer sessions only with email_verified absent or true after typed decoding (shared with C04.R4)", 1)
+	r.Rule("R9-github-collaborator-verdict", "isCollaborator pairs a nil error only with a true verdict (its caller returns the error when the verdict is false)", 1)
 	r.Rule("R7-validate-token", "validateToken true => token non-empty, request error-free, status 200", 1)
 	r.Rule("R4-panic-sources", "no unguarded panic source on decoded identity-provider data in request-reachable provider code", 8)
 	r.Rule("R5-verification-failures", "createSession tolerates a verification failure only for refresh && ErrMissingIDToken", 2)
@@ -160,6 +162,8 @@ func runC14(c *Ctx) {
 	}
 
 	runC14R7(c, "R7-validate-token")
+	runBearerEmailVerified(c, "R8-bearer-email-verified")
+	runC14R9(c, "R9-github-collaborator-verdict")
 
 	// ---- R4 ---------------------------------------------------------------------------------
 	rule = "R4-panic-sources"
@@ -339,4 +343,51 @@ func runC14R7(c *Ctx, rule string) {
 			c.bad(rule, key, p.Exit, "validateToken can answer true without "+strings.Join(missing, ", ")+": an empty or unverified token validates a session", p, at)
 		}
 	})
+}
+
+// runC14R9: GitHub's collaborator restriction fails closed. getUser passes the collaborator check only
+// with a true verdict: on every path on which isCollaborator ran, a nil result of getUser needs that
+// verdict to be true (so every non-204 answer of the collaborators endpoint, error or not, ends the login).
+func runC14R9(c *Ctx, rule string) {
+	getUser := c.Fn(rule, "(*providers.GitHubProvider).getUser")
+	isCollab := c.P.Func("(*providers.GitHubProvider).isCollaborator")
+	if getUser == nil {
+		return
+	}
+	if isCollab == nil {
+		c.R.Unknown(rule, "anchor:isCollaborator", "-", "anchor function (*providers.GitHubProvider).isCollaborator not found")
+		return
+	}
+	n := 0
+	// the caller's idiom is `if ok, err := p.isCollaborator(...); err != nil || !ok { return err }`: it fails closed
+	// exactly as long as the callee never pairs a false verdict with a nil error
+	usesIdiom := false
+	for _, cs := range c.callersOf(isCollab) {
+		if cs.Parent() == getUser {
+			usesIdiom = true
+		}
+	}
+	if !usesIdiom {
+		c.R.Unknown(rule, "collaborator-caller|"+fnKey(getUser), c.P.Pos(getUser.Pos()), "getUser no longer calls isCollaborator")
+		return
+	}
+	{
+		c.Walk(rule, isCollab, func(p *walk.Path) {
+			ev, ok := p.ReturnDV(1)
+			if !ok || !DefinitelyNil(p, ev, p.End()) {
+				return
+			}
+			n++
+			key := "collaborator-pairs|" + fnKey(isCollab)
+			v, _ := p.ReturnDV(0)
+			if b, k := p.Truth(v, p.End()); k && b {
+				c.ok(rule, key, p.Exit, "a nil error comes only with verdict true")
+			} else {
+				c.bad(rule, key, p.Exit, "isCollaborator can return (false, nil); its caller's `err != nil || !ok { return err }` then returns nil and the login proceeds", p, p.End())
+			}
+		})
+	}
+	if n == 0 {
+		c.R.Unknown(rule, "collaborator-verdict|none", c.P.Pos(getUser.Pos()), "no path of getUser reaches the collaborator check")
+	}
 }
